@@ -348,12 +348,30 @@ def r7_every_parameter_can_be_type_valued(ctx):
     ctx.require(n, f"{an.key}: nothing fills `{cattr}`")
 
 
+def r7(ctx):
+    from . import arganal
+
+    r7_every_parameter_can_be_type_valued(ctx)
+    arganal.law(ctx, "key-function")
+
+
+def _more(name):
+    def run(ctx):
+        from . import more
+
+        getattr(more, name)(ctx)
+
+    run.__name__ = name
+    return run
+
+
 RULES = [
-    ("C14.R7", "P1", r7_every_parameter_can_be_type_valued, "keyword-only parameters can be type-valued too"),
+    ("C14.R7", "P1", r7, "keyword-only parameters can be type-valued too"),
     ("C14.R4", "P1", r4_positions, "the key function is chosen for the parameter's real position"),
     ("C14.R5", "P1", r5_generic_arguments, "parametrised generics are compared argument-wise under a length test"),
     ("C14.R6", "P1", r6_entry_point_republished, "a rebuild re-publishes the entry point's helpers (the type-valued key function among them)"),
     ("C14.R1", "P1", r1_subtler_chain, "the type-valued key function's branches"),
     ("C14.R2", "P1", r2, "one key function everywhere"),
     ("C14.R3", "P1", r3_normaliser_type_branches, "normaliser branches for type / Any"),
+    ("C14.R8", "P1", _more("annotations_pass_the_normaliser"), "every annotation read passes the normaliser"),
 ]
